@@ -63,14 +63,14 @@ RAISING_SUBSCRIPT = {'geo.by_tag': 'PByTag', 'm.geo.by_tag': 'PByTag'}
 RAISE_STMT = {'ValueError': 'PRaiseValue', 'ArithmeticError': 'PRaiseArith'}
 # operations that cannot raise on the values main passes to them
 BENIGN_NAMES = {'print', 'len', 'str', 'repr', 'set', 'sorted', 'zip', 'range', 'enumerate', 'dict', 'isinstance', 'min', 'max',
-                'getattr', 'list', 'tuple', 'bool', 'abs', 'np.isfinite', 'np.array', 'ValueError', 'ArithmeticError', 'Geo_Container'}
+                'getattr', 'hasattr', 'list', 'tuple', 'bool', 'abs', 'any', 'all', 'sum', 'map', 'filter', 'reversed', 'round', 'type', 'frozenset', 'np.isfinite', 'np.array', 'ValueError', 'ArithmeticError', 'Geo_Container'}
 BENIGN_METHODS = {'split', 'strip', 'pop', 'append', 'add', 'update', 'startswith', 'endswith', 'replace', 'max', 'min', 'all', 'any',
                   'get', 'extend', 'join', 'lower', 'items', 'keys', 'values'}
 
-def handler_kinds(h):
+def handler_kinds(h, walker):
     """kinds caught by one `except` clause, and whether it is a catch-all; the body must be the diagnostic ending."""
     body = h.body
-    if not body or not isinstance(body[-1], ast.Return) or not isinstance(body[-1].value, ast.Constant) or body[-1].value.value != 23:
+    if not body or not walker.is_diag_return(body[-1]):
         raise Fail('line %d: handler does not end in `return 23`' % h.lineno)
     for s in body[:-1]:
         ok = isinstance(s, ast.Expr) and isinstance(s.value, ast.Call) and ast.unparse(s.value.func) == 'print'
@@ -91,8 +91,31 @@ def handler_kinds(h):
     return kinds, call
 
 class Walker:
-    def __init__(self):
+    def __init__(self, tree=None):
         self.sites = []    # (line, col, prim, kinds, catch_all)
+        self.funcs = {}    # module-level helper functions main may call
+        self.consts = {}   # module-level NAME = constant
+        self.depth = 0
+        self.in_helper = False
+        for n in (tree.body if tree is not None else []):
+            if isinstance(n, ast.FunctionDef) and n.name != 'main':
+                self.funcs[n.name] = n
+            if isinstance(n, ast.Assign) and len(n.targets) == 1 and isinstance(n.targets[0], ast.Name) and isinstance(n.value, ast.Constant):
+                self.consts[n.targets[0].id] = n.value.value
+
+    def is_diag_return(self, st):
+        """`return 23` (literally or through a module-level constant) in main; in a helper function any `return` of a
+        constant or name: the helper reports the failure to main, which is expected to return 23 (not checked)"""
+        if not isinstance(st, ast.Return):
+            return False
+        v = st.value
+        if self.in_helper:
+            return v is None or isinstance(v, (ast.Constant, ast.Name))
+        if isinstance(v, ast.Constant):
+            return v.value == 23
+        if isinstance(v, ast.Name):
+            return self.consts.get(v.id) == 23
+        return False
 
     def site(self, node, prim, ctx):
         kinds, call = [], False
@@ -107,6 +130,23 @@ class Walker:
                 f = ast.unparse(n.func)
                 if f in RAISING_CALL:
                     self.site(n, RAISING_CALL[f], ctx)
+                elif f in self.funcs and f not in BENIGN_NAMES:
+                    # a helper function of the same module: its operations are performed here, inside the try statements
+                    # around this call (and its own)
+                    if self.depth >= 3:
+                        raise Fail('line %d: helper functions nested too deeply at %s' % (n.lineno, f))
+                    fn = self.funcs[f]
+                    params = {a.arg for a in fn.args.args + fn.args.kwonlyargs}
+                    for sub in ast.walk(fn):
+                        if isinstance(sub, ast.Call) and isinstance(sub.func, ast.Name) and sub.func.id in params:
+                            raise Fail('line %d: helper %s calls its parameter %s' % (sub.lineno, f, sub.func.id))
+                        if isinstance(sub, (ast.FunctionDef, ast.Lambda)) and sub is not fn and isinstance(sub, ast.FunctionDef):
+                            raise Fail('line %d: nested function in helper %s' % (sub.lineno, f))
+                    self.depth += 1; old = self.in_helper; self.in_helper = True
+                    try:
+                        self.stmts([b for b in fn.body if not (isinstance(b, ast.Expr) and isinstance(b.value, ast.Constant))], ctx)
+                    finally:
+                        self.depth -= 1; self.in_helper = old
                 elif f in BENIGN_NAMES:
                     pass
                 elif isinstance(n.func, ast.Attribute) and n.func.attr in BENIGN_METHODS:
@@ -130,7 +170,7 @@ class Walker:
         if isinstance(s, ast.Try):
             if s.orelse or s.finalbody:
                 raise Fail('line %d: try with else / finally' % s.lineno)
-            hk = [handler_kinds(h) for h in s.handlers]
+            hk = [handler_kinds(h, self) for h in s.handlers]
             kinds, call = [], False
             for k, c in hk:
                 kinds += k
@@ -192,7 +232,7 @@ def translate(src):
            if isinstance(s, ast.Assign) and isinstance(s.value, ast.Call) and ast.unparse(s.value.func).endswith('.parse_args')]
     if len(idx) != 1:
         raise Fail('args = cmd.parse_args (argv) not found exactly once at the top level of main')
-    w = Walker()
+    w = Walker(tree)
     w.stmts(main.body[idx[0] + 1:], [])
     w.sites.sort(key=lambda x: (x[0], x[1]))
     return w.sites
